@@ -24,6 +24,8 @@ const TOTAL_BASE: usize = 64 << 10;
 const TOTAL_PER_BYTE: usize = 4096;
 /// allocation beyond this many live bytes is refused (the node then aborts)
 const HARD_CAP: usize = 3 << 30;
+const DECODE_FACTOR: u32 = 30;
+const FOLLOWUP_FACTOR: u32 = 200;
 
 fn size_cap(tier: Tier) -> usize {
     match tier {
@@ -75,12 +77,27 @@ fn op<T>(st: &mut RunStats, what: &str, ep: &str, handed: usize, f: impl FnOnce(
     }
 }
 
-/// Time envelope: 250 ms + 10 us per byte handed in (measured legitimate cost is ~0.1 us per
-/// byte, so the margin is ~100x plus a quarter second).  A breach is re-measured three times in
-/// this process and only the minimum counts, so scheduling noise cannot raise an alarm; the
-/// supervisor re-executes the case alone in a fresh process before anything is reported.
-fn slow_check(st: &mut RunStats, what: &str, ep: &str, handed: usize, first: std::time::Duration, again: impl FnMut()) -> Option<Violation> {
-    let limit = std::time::Duration::from_micros(250_000 + 10 * handed as u64);
+/// Time envelope.  Absolute: 250 ms + 10 us per byte handed in.  Relative: 5 ms + FACTOR x the
+/// reference cost of the same bytes, where the reference is the time coset's own `Value` decoder
+/// needs for them plus 0.2 us per byte (a typed decoder also parses what `Value` merely copies,
+/// e.g. protected-header byte strings).  A breach is re-measured three times in this process and
+/// only the minimum counts; the supervisor then re-executes the case alone in a fresh process and
+/// silently drops a timing report that does not reproduce, so scheduling noise cannot raise an
+/// alarm.
+fn slow_check(
+    st: &mut RunStats,
+    what: &str,
+    ep: &str,
+    handed: usize,
+    reference: std::time::Duration,
+    factor: u32,
+    first: std::time::Duration,
+    again: impl FnMut(),
+) -> Option<Violation> {
+    let abs = std::time::Duration::from_micros(250_000 + 10 * handed as u64);
+    let refc = reference + std::time::Duration::from_nanos(200 * handed as u64);
+    let rel = std::time::Duration::from_millis(5) + refc * factor;
+    let limit = abs.min(rel);
     st.max("max:op_micros", first.as_micros() as u64);
     if first <= limit {
         return None;
@@ -101,7 +118,16 @@ fn slow_check(st: &mut RunStats, what: &str, ep: &str, handed: usize, first: std
     }
     Some(Violation::new(
         "C01.slow",
-        format!("{} at {}: {} us for {} bytes handed in (envelope {} us; minimum of 4 measurements)", what, ep, best.as_micros(), handed, limit.as_micros()),
+        format!(
+            "{} at {}: {} us for {} bytes handed in (envelope {} us = min(250 ms + 10 us/byte, 5 ms + {} x reference {} us); minimum of 4 measurements)",
+            what,
+            ep,
+            best.as_micros(),
+            handed,
+            limit.as_micros(),
+            factor,
+            refc.as_micros()
+        ),
     ))
 }
 
@@ -307,7 +333,21 @@ impl Engine for C01 {
         let cap = size_cap(tier);
         // large inputs are rare: they cost ~0.1 s per endpoint
         let cap = if rng.chance(1, 512) { cap } else { cap.min(8 << 10) };
-        let c = gen_case(&mut rng, cap);
+        // 1 run in 1000 fills the whole size cap with siblings, 1 in 1000 with nesting: cost that
+        // grows faster than the input only shows on large inputs
+        let full = size_cap(tier);
+        let c = match rng.below(1000) {
+            0 => {
+                let (bytes, ty) = gen_wide(&mut rng, full, true);
+                Case { bytes, faults: vec!["nest(wide-siblings)".into(), "full-size".into()], base_type: ty.to_string(), depth: None }
+            }
+            1 => {
+                let mut c = gen_nest(&mut rng, full);
+                c.faults.push("full-size".into());
+                c
+            }
+            _ => gen_case(&mut rng, cap),
+        };
         t.set_meta("base", c.base_type.clone());
         t.set_meta("faults", if c.faults.is_empty() { "none".to_string() } else { c.faults.join("+") });
         if let Some(d) = c.depth {
@@ -400,6 +440,16 @@ impl Engine for C01 {
             }
             st.distinct(2, h.finish());
         }
+        // reference cost of these bytes: coset's plain Value decoder, best of two
+        let reference = {
+            let mut best = std::time::Duration::from_secs(3600);
+            for _ in 0..2 {
+                let t = std::time::Instant::now();
+                let _ = guarded(|| <coset::cbor::value::Value as coset::CborSerializable>::from_slice(&bytes));
+                best = best.min(t.elapsed());
+            }
+            best
+        };
         let mut accepted_any = false;
         for ep in endpoints() {
             if let Some(o) = &only {
@@ -412,7 +462,7 @@ impl Engine for C01 {
                 Ok(r) => r,
                 Err(v) => return Ok(Some(v)),
             };
-            if let Some(v) = slow_check(st, "decode", ep.name, bytes.len(), t0.elapsed(), || {
+            if let Some(v) = slow_check(st, "decode", ep.name, bytes.len(), reference, DECODE_FACTOR, t0.elapsed(), || {
                 let _ = guarded(|| (ep.decode)(&bytes));
             }) {
                 return Ok(Some(v));
@@ -444,7 +494,7 @@ impl Engine for C01 {
                     let handed = bytes.len() + aad.len() + payload.len();
                     let el = t1.elapsed();
                     let mut scratch = RunStats::default();
-                    if let Some(v) = slow_check(st, "follow-up operations", ep.name, handed, el, || {
+                    if let Some(v) = slow_check(st, "follow-up operations", ep.name, handed, reference, FOLLOWUP_FACTOR, el, || {
                         let _ = followups(&mut scratch, ep, &d, bytes.len(), &aad, &payload, ok);
                     }) {
                         return Ok(Some(v));
